@@ -231,6 +231,47 @@ def unit_cases(seed, n):
     return cases
 
 
+def two_state_cases(seed, n):
+    """the SAME path analysed twice by one long-lived parser: first with text A, then - after an edit of the header directives - with
+    text B.  What is suppressed must follow the current text only."""
+    cases = []
+    for i in range(n):
+        r = rng_for(seed, PROP, "two-state", i)
+        st = r.choice(["Hash", "Hash", "Slashes"])
+        a, rules = gen_afile(r, [st])
+        t = rules[0]
+        first = [l for l in a if l[0] != "File"]
+        second = list(first)
+        mode = r.choice(["drop", "rename", "add", "move_out"])
+        named, other = names_text(r, t, True), names_text(r, t, False)
+        if mode == "drop":        # the header directive is deleted
+            first = [["File", st, named]] + first
+            second = [["Plain", "import os"]] + second
+        elif mode == "rename":    # ... now names another rule
+            first = [["File", st, named]] + first
+            second = [["File", st, other]] + second
+        elif mode == "add":       # ... is new
+            first = [["Plain", "import os"]] + first
+            second = [["File", st, named]] + second
+        else:                     # ... moved below the header window
+            first = [["File", st, named]] + first
+            second = [["Plain", ""]] * 11 + [["File", st, named]] + second
+        qlines = [k + 1 for k, l in enumerate(second) if is_code(l)][:12]
+        qs = [(ln, rule) for ln in qlines for rule in rules]
+        cases.append({"kind": "unit", "i": f"two-state:{i}", "afile": second, "content": render(second), "queries": qs, "pipes": ["PShared"] * len(qs),
+                      "cross": (qlines, rules), "prior_afile": first, "two_state": mode})
+    return cases
+
+
+def impl_two_state(case, path: Path):
+    """text A on disk and analysed, then text B written to the same path and analysed by the same parser"""
+    prior = render(case["prior_afile"])
+    path.write_bytes(prior.encode("utf-8"))
+    impl_unit(prior, case["queries"], path)
+    path.write_bytes(case["content"].encode("utf-8"))
+    return impl_unit(case["content"], case["queries"], path)
+
+
 UNICODE_BITS = ["\x0c", "\x0b", "\x1c", "\x1d", "\x1e", "\x85", "\u2028", "\u2029", "\r", "\r\n", "\xa0", "\u3000", "\u2003", "\x1f", "\t",
                 "\u00e9", "\u4e2d", "\U0001f600", "\u00df", "\u1680", "\u205f", "\u202f"]
 RAW_TWEAKS = ["case", "prose", "design", "space_form", "ctrl", "dup", "cut", "glue", "spaces", "all", "hashless"]
@@ -455,11 +496,62 @@ def obs_cases(seed, n):
         lang = r.choice(["py", "py", "ts", "rs"])
         base = base_file(r, lang)
         cases.append({"i": i, "lang": lang, "base": base, "seed": seed})
+    for i in range(max(4, n // 12)):   # same path linted twice by one long-lived Orchestrator, header directive edited in between
+        r = rng_for(seed, PROP, "obs2", i)
+        lang = r.choice(["py", "py", "ts", "rs"])
+        cases.append({"i": f"two-state:{i}", "lang": lang, "base": base_file(r, lang), "seed": seed, "two_state": True})
     return cases
+
+
+def run_obs_two_state(case):
+    """one path, one long-lived Orchestrator: first linted with a file-level directive naming the target's rule, then - header edited -
+    linted again; the second result is judged against the second text"""
+    global _orch
+    lang, base = case["lang"], case["base"]
+    ext, st = LANGS[lang][1], LANGS[lang][2]
+    r = rng_for(case["seed"], PROP, "obs-two-state", case["i"])
+    v0, fails0 = lint_text("".join(l + "\n" for l in ["", *base]), ext)   # one spare first line: the header edit keeps every line number
+    if not v0:
+        return {"skip": "base file has no violation", **case}
+    target = r.choice(v0)
+    trule = target[0]
+    others = [x for x in RULES if prefix_of(x) != prefix_of(trule)]
+    mode = r.choice(["drop", "rename", "add"])
+    f1 = ["File", st, spelling(r, trule)]
+    first = {"drop": f1, "rename": f1, "add": ["Plain", ""]}[mode]
+    second = {"drop": ["Plain", ""], "rename": ["File", st, spelling(r, r.choice(others))], "add": f1}[mode]
+    body = [["Plain", l] for l in base]
+    with scratch_dir("tv-c04-two-") as d:
+        f = d / ("case" + ext)
+        if _orch is None:
+            _orch = make_orchestrator(d, {})
+        _orch.project_root = d
+        outs = []
+        for head in (first, second):
+            f.write_text(render([head] + body), encoding="utf-8")
+            outs.append(sorted([v.rule_id, v.line, v.column, v.message] for v in _orch.lint_file(f) if prefix_of(v.rule_id) in PKG_OF_PREFIX))
+        fails = drain_failures()
+    afile = [second] + body
+    v1 = outs[1]
+    remaining, kept = list(v1), []
+    for sv in v0:
+        hit = next((w for w in remaining if w[:3] == sv[:3]), None)
+        if hit is not None:
+            remaining.remove(hit)
+        kept.append(hit is not None)
+    return {"kind": "obs", "i": case["i"], "lang": lang, "form": "two_state_" + mode, "how": "named", "target": target,
+            "afile": afile, "content": render(afile), "queries": [(sv[1], sv[0]) for sv in v0],
+            "pipes": [f'(pipeline_of {coq.coq_string(PKG_OF_PREFIX[prefix_of(sv[0])])} {coq.coq_string(lang)})' for sv in v0],
+            "pkgs": [PKG_OF_PREFIX[prefix_of(sv[0])] for sv in v0],
+            "impl": [not k for k in kept], "new_violations": remaining, "failures": fails0 + fails, "v0": v0, "v1": v1, "base": base, "via": "api",
+            "obs_case": {"i": case["i"], "lang": lang, "base": base, "seed": case["seed"], "two_state": True},
+            "first_state": render([first] + body)}
 
 
 def run_obs(case):
     """before/after on the implementation; returns the judged-case payload or a skip reason"""
+    if case.get("two_state"):
+        return run_obs_two_state(case)
     lang, base = case["lang"], case["base"]
     ext = LANGS[lang][1]
     r = rng_for(case["seed"], PROP, "obs-plan", case["i"])
@@ -556,13 +648,32 @@ def run_patterns(case):
                     got = _lint_in(root, f, {})
                 out.append({"level": "repo-dir:" + via, "pattern": f"{pat} on {sub}/{fname}", "matches": matches, "before": v0, "after": got,
                             "expected": [] if matches else v0, "pkg": None})
+        # linter-level `ignore:` lists, for every linter with violations in this file: as a config dict and through .thailint.yaml, in both
+        # key spellings (magic-numbers / magic_numbers), with and without a per-language sub-section next to the list
+        import yaml
+        langsec = {"py": "python", "ts": "typescript", "rs": "rust"}[lang]
         for pkg in sorted({PKG_OF_PREFIX[prefix_of(v[0])] for v in v0} & set(CONFIG_KEY)):
             mine = [v for v in v0 if PKG_OF_PREFIX[prefix_of(v[0])] == pkg]
             rest = [v for v in v0 if PKG_OF_PREFIX[prefix_of(v[0])] != pkg]
-            for pat, matches in pats:
-                got = lint({CONFIG_KEY[pkg]: {"ignore": [pat]}})
-                out.append({"level": "linter", "pkg": pkg, "pattern": pat, "matches": matches, "literal": "*" not in pat and matches,
-                            "before": v0, "after": got, "expected": rest if matches else v0, "mine": mine})
+            key = CONFIG_KEY[pkg]
+            variants = [("dict", key, False)] + [("yaml", k, sub) for k in dict.fromkeys([key, key.replace("-", "_")]) for sub in (False, True)] \
+                + [("dict", key, True)]
+            for via, k, sub in variants:
+                for pat, matches in pats:
+                    section = {"ignore": [pat]}
+                    if sub:
+                        section[langsec] = {"enabled": True}
+                    if via == "dict":
+                        got = lint({k: section})
+                    else:
+                        with scratch_dir("tv-c04-paty-") as root:
+                            f = root / name
+                            f.write_text(text, encoding="utf-8")
+                            (root / ".thailint.yaml").write_text(yaml.safe_dump({k: section}))
+                            got = _lint_in(root, f, None)
+                    out.append({"level": "linter", "pkg": pkg, "pattern": pat, "matches": matches, "literal": "*" not in pat and matches,
+                                "before": v0, "after": got, "expected": rest if matches else v0, "mine": mine,
+                                "config": {k: section}, "via": via})
     return {"skip": False, "results": out, "failures": drain_failures(), "text": text, "lang": lang}
 
 
@@ -570,13 +681,13 @@ def decide_patterns(chk, res):
     if res.get("failures"):
         chk.violation({"reason": "a rule failed internally (swallowed exception) during a pattern run", "failures": res["failures"][:3]})
     for r in res["results"]:
-        chk.count([res["text"], r["level"], r["pkg"], r["pattern"]], r["matches"])
+        chk.count([res["text"], r["level"], r["pkg"], r["pattern"], r.get("config"), r.get("via")], r["matches"])
         chk.dist(f"pattern:{r['level']}:{r['pkg'] or 'repo'}:{'match' if r['matches'] else 'nomatch'}")
         chk.traces_validated += 1
         if r["after"] == r["expected"]:
             continue
         info = {"reason": "an ignore pattern did not remove exactly the violations it covers", "level": "pattern:" + r["level"], "linter": r["pkg"],
-                "pattern": r["pattern"], "file": "case" + LANGS[res["lang"]][1], "content": res["text"], "before": r["before"], "after": r["after"], "expected": r["expected"]}
+                "pattern": r["pattern"], "config": r.get("config"), "given_as": r.get("via"), "file": "case" + LANGS[res["lang"]][1], "content": res["text"], "before": r["before"], "after": r["after"], "expected": r["expected"]}
         mode = PATTERN_MODE.get(r["pkg"])
         if r["level"] == "linter" and mode == "never" and r["after"] == r["before"]:
             chk.known_finding(f"linter_ignore_never[{r['pkg']}]", info)
@@ -737,10 +848,10 @@ def decide(chk, case, ver, agree, full_vector, note=""):
             continue
         ln, rule = case["queries"][k]
         info = {"reason": "suppression differs from what the directives in scope name" + note, "level": case["kind"], "line": ln, "rule_id": rule,
-                "suppressed_by_impl": case["impl"][k], "content": case["content"], "case": {kk: case[kk] for kk in ("kind", "i", "afile") if kk in case}}
+                "suppressed_by_impl": case["impl"][k], "content": case["content"], "case": {kk: case[kk] for kk in ("kind", "i", "afile", "prior_afile", "two_state") if kk in case}}
         if case["kind"] == "obs":
             info.update({"lang": case["lang"], "form": case["form"], "target": case["target"], "violations_before": case["v0"], "violations_after": case["v1"],
-                         "obs_case": case["obs_case"]})
+                         "obs_case": case["obs_case"], "first_state": case.get("first_state")})
         keys = []
         pkg = case.get("pkgs", [None] * len(rows))[k]
         if pkg in NO_INLINE:
@@ -925,10 +1036,12 @@ def run(tier: str, seed: int, replay: str | None = None) -> int:
             a = c["afile"]
             structured = [{"kind": "unit", "i": "replay", "afile": a, "content": render(a),
                            "queries": [(payload["line"], payload["rule_id"])], "pipes": ["PShared"]}]
+            if c.get("prior_afile"):
+                structured[0].update({"prior_afile": c["prior_afile"], "two_state": c.get("two_state")})
         elif "content" in payload and "line" in payload:
             raws = [{"kind": "raw", "i": "replay", "content": payload["content"], "queries": [(payload["line"], payload["rule_id"])], "pipes": ["PShared"]}]
     else:
-        structured = corpus_cases() + unit_cases(seed, n_unit)
+        structured = corpus_cases() + two_state_cases(seed, (40 if quick else 400) * scale) + unit_cases(seed, n_unit)
         raws = raw_cases(seed, n_raw)
         leafs = leaf_strings(seed, n_leaf)
         obs_in = obs_cases(seed, n_obs)
@@ -938,6 +1051,10 @@ def run(tier: str, seed: int, replay: str | None = None) -> int:
     with scratch_dir("tv-c04-disk-") as dd:
         for c in structured:
             if c["kind"] != "unit":
+                continue
+            if c.get("prior_afile"):
+                c["impl"] = impl_two_state(c, dd / "two_state.py")
+                chk.dist("two-state:unit:" + str(c.get("two_state")))
                 continue
             disk = None
             if isinstance(c["i"], int) and c["i"] % 4 == 0:   # also exercise has_file_ignore(file_path) on the same text
